@@ -37,7 +37,8 @@ RULE = ('one run = one simulated hand on one of the 11 hand-history variants (si
         'interleaved by the scheduler (fault note_interleaved) is written as note lines of its own and the sequence of notes must '
         'replay unchanged. In half of the runs the loaded history is also replayed with a scheduler-chosen subset of the default '
         'automations (HandHistory(automations=...)), so that the replay itself has to complete forced bets, collections, burns, '
-        'run-out selection, hand killing, pushing and pulling, and must reach the same actions, cards, stacks and payoffs. non-trivial = hand with >= 8 action lines; distinct = distinct '
+        'run-out selection, hand killing, pushing and pulling, and must reach the same actions, cards, stacks and payoffs; in a third of the runs the lines of players who tabled their '
+        'complete known hand are respelled in the format\'s other notation ("pN sm -") and the history must replay to the same hand. non-trivial = hand with >= 8 action lines; distinct = distinct '
         '(variant, chip type, compression, fault plan, action-verb sequence) digests')
 ASSUMPTIONS = [
     'strings exclude control characters, the sequence \'\'\' and a trailing quote (TOML literal strings cannot carry them)',
@@ -264,6 +265,33 @@ def omitted_steps(ch, st, hh, ctx, only_build=False):
                         f'with {st.stacks} after {plain(st.operations)}', rule='omitted', decimal_reloaded_as_int=retyped(st, end))
 
 
+def respelled_show(ch, st, hh, ctx):
+    """The format's other spelling of a full show: 'pN sm -' (show whatever the player holds) in place of 'pN sm <his cards>'.
+    A history in which the lines of players who tabled their complete, known hand are respelled must replay to the same
+    hand: same shown cards, stacks and payoffs."""
+    import dataclasses
+    acts = list(hh.actions)
+    shows = [op for op in st.operations if type(op).__name__ == 'HoleCardsShowingOrMucking']
+    lines = [i for i, a in enumerate(acts) if len(a.split()) > 1 and a.split()[0].startswith('p') and a.split()[1] == 'sm']
+    if len(lines) != len(shows):
+        return
+    changed = 0
+    for i, op in zip(lines, shows):
+        full = (op.hole_cards and all(op.hole_cards) and not any(c.unknown_status for c in op.hole_cards)
+                and len(acts[i].split('#')[0].split()) == 3
+                and acts[i].split()[2] == ''.join(map(repr, st.hole_cards[op.player_index] or op.hole_cards)))
+        if full and ch.chance('respell.line', 1, 2):
+            rest = acts[i].split('#', 1)
+            acts[i] = ' '.join(rest[0].split()[:2] + ['-']) + (' #' + rest[1] if len(rest) > 1 else '')
+            changed += 1
+    if not changed:
+        return
+    h2 = dataclasses.replace(hh, actions=acts)
+    end = replay_to_end(roundtrip(h2, "history with shows respelled 'sm -'")[0], "history with shows respelled 'sm -'")
+    compare(st, end, "history with shows respelled 'sm -'")
+    ctx.count('shows_respelled', changed)
+
+
 class ZeroTracker(Monitor):
     """Players whose stack was empty at some point of the hand (also mid-cascade)."""
 
@@ -392,6 +420,8 @@ def run(ch, ctx):
             inf_variant(ch, st, hh, zt.zeroed, cfg, ctx)
         if ch.chance('c16.file', 1, 3):
             several_in_one_file(ch, hh, ctx)
+        if dealer != 'hidden' and ch.chance('c16.respell', 1, 3):
+            respelled_show(ch, st, hh, ctx)
         if dealer != 'hidden' and ch.chance('c16.omit', 1, 2):
             omitted_steps(ch, st, hh, ctx)
         if cut is not None:
